@@ -358,6 +358,13 @@ def _live_cases(rng, tier):
     out = []
     for v in range(-20, 20):
         out.append(_live("live-nice-set", elig, ncpu, ["nice", v], nice=rng.choice([0, 5, -5])))
+    # SYSTEMATIC, never trimmed: the errno protocol of psutil_posix_getpriority.  The child sits at nice v; a call that fails (and
+    # leaves errno set in this thread) comes first; p.nice() and p.as_dict(['nice']) must still return v
+    for v in (-20, -2, -1, 0, 1, 19):
+        for pre in ("none", "kill_dead", "stat_vanished", "process_dead"):
+            c = _live("live-nice-get-after-failing-call", elig, ncpu, ["nice", None], nice=v)
+            c["pre"] = pre
+            out.append(c)
     for v in [-21, 20, 2 ** 31]:
         out.append(_live("live-nice-outside", elig, ncpu, ["nice", v]))
     out.append(_live("live-nice-get", elig, ncpu, ["nice", None], nice=-1))
@@ -1151,8 +1158,29 @@ def _run_live2(case, req, res_idx, child, real):
     p = psutil.Process(child.pid)
     pidmap = {real[0]: case["procs"][0]["pid"], real[1]: case["procs"][1]["pid"]}
     elig = _out(p._proc._get_eligible_cpus, _conv, pidmap)
-    res = _out(_call(p, req, case.get("form", "pos"), case), _conv, pidmap)
-    got = _out(_get_call(p, req), _conv, pidmap)
+    pre = case.get("pre")
+    if pre:
+        import subprocess
+        dead = subprocess.Popen(["true"])
+        dead.wait()
+
+        def failing_call():
+            try:
+                if pre == "kill_dead":
+                    os.kill(dead.pid, 0)
+                elif pre == "stat_vanished":
+                    os.stat("/proc/%d" % dead.pid)
+                elif pre == "process_dead":
+                    psutil.Process(dead.pid)
+            except (OSError, psutil.Error):
+                pass
+        failing_call()
+        res = _out(_call(p, req, case.get("form", "pos"), case), _conv, pidmap)
+        failing_call()
+        got = _out(lambda: p.as_dict(["nice"])["nice"], _conv, pidmap)
+    else:
+        res = _out(_call(p, req, case.get("form", "pos"), case), _conv, pidmap)
+        got = _out(_get_call(p, req), _conv, pidmap)
     dump = []
     for pid, st, b in zip(real, case["procs"], before):
         if psutil.Process(pid).status() == psutil.STATUS_ZOMBIE:
